@@ -182,12 +182,48 @@ def concurrent_matching(ctx, matcher):
         matcher({'k': 'warm-%d-*' % i}, {'k': 'warm-%d-x' % i})
     jobs = [[({'k': 'ab*'}, {'k': 'abc'}), ({'k': 'n%d?' % 1}, {'k': 'n1x'}), ({'k': ['zz*', 'q[ab]']}, {'k': 'qa'})],
             [({'k': 'fresh-*'}, {'k': 'fresh-1'}), ({'k': 'x?z'}, {'k': 'xyz'}), ({'k': 'ab*'}, {'k': 'xb'})]]
-    holder = {'n': 0}
+    holder = {'n': 0, 'pf': 0, 'capacity': None}
+
+    def containers():
+        """Process-wide containers of the matcher's module / class (e.g. a cache of compiled patterns), observed from outside."""
+        out = []
+        for owner in (tc.TapeCassette, tc):
+            for k, v in list(vars(owner).items()):
+                if isinstance(v, (dict, list, set)) and not k.startswith('__'):
+                    out.append(v)
+                elif hasattr(v, 'cache_info'):
+                    out.append(v)
+        return out
+
+    def size(c):
+        return c.cache_info().currsize if hasattr(c, 'cache_info') else len(c)
+
+    def bring_caches_to_the_brink():
+        """If matching never-seen patterns makes some process-wide container grow and, at some size, shrink again (a bounded cache
+        that is emptied when full), leave it two entries short of that size: the execution's own new patterns then hit the limit
+        while the threads are interleaved. Costs at most ~2 x capacity matcher calls; does nothing when there is no such container."""
+        cs = containers()
+        if not cs:
+            return
+        for _ in range(1200):
+            before = [size(c) for c in cs]
+            if holder['capacity'] is not None and any(b == holder['capacity'] - 2 for b in before):
+                return
+            holder['pf'] += 1
+            matcher({'k': 'pf-%d-*' % holder['pf']}, {'k': 'pf-%d-x' % holder['pf']})
+            after = [size(c) for c in cs]
+            if not any(a != b for a, b in zip(after, before)):
+                return                      # nothing process-wide remembers patterns
+            for a, b in zip(after, before):
+                if a < b:
+                    holder['capacity'] = b + 0      # emptied when it held b entries and one more arrived
+                    ctx.count('bounded_cache_wraps_observed')
 
     def make(sched):
         results = {}
         holder['results'] = results
         holder['n'] += 1          # every execution uses patterns never seen before: a bounded pattern cache of any capacity wraps
+        bring_caches_to_the_brink()
 
         def worker(i):
             def fn():
